@@ -153,7 +153,9 @@ class FetchUnused(FetchStream):
                     gi += 1
                 else:
                     missing.append(w)
-            if gi == len(got) and missing and all(w[0] in names or w[0].split(".")[-1] in names for w in missing):
+            def nameable(path):      # a reference may spell the whole path or (relative lookup) a dotted tail of it
+                return any(n and (path == n or path.endswith("." + n)) for n in names)
+            if gi == len(got) and missing and all(nameable(w[0]) for w in missing):
                 return None
         return "exact: reported %s, the property's formula gives %s" % (json.dumps(got)[:300], json.dumps(want)[:300])
 
